@@ -186,9 +186,12 @@ def run_batches(worker, batches, timeout=300.0, nproc=None):
 
 # ------------------------------------------------------------------ known findings
 def load_findings():
-    path = os.path.join(VERIF, "KNOWN_FINDINGS.txt")
+    import glob
     known = {}
-    if os.path.exists(path):
+    # findings.d/*.txt: per-property staging files used while a check is being built; merged into KNOWN_FINDINGS.txt
+    for path in [os.path.join(VERIF, "KNOWN_FINDINGS.txt")] + sorted(glob.glob(os.path.join(VERIF, "findings.d", "*.txt"))):
+        if not os.path.exists(path):
+            continue
         for line in open(path, encoding="utf8"):
             line = line.strip()
             if line.startswith("finding:"):
